@@ -91,10 +91,15 @@ pub fn dir_parse<S: Src>(s: &mut S, lo: u8, hi: u8) {
 }
 
 fn dir_parse_one<S: Src>(s: &mut S, di: u8) {
+    // operand-list shape (assignment, or a list of 0, 1 or 2 operands) chosen symbolically but
+    // explored on concrete paths
+    let shape = s.below(4);
+    crate::split!(shape, 0, 4, |sh| dir_parse_shape(s, di, sh == 3, if sh == 3 { 0 } else { sh as usize }));
+}
+
+fn dir_parse_shape<S: Src>(s: &mut S, di: u8, assign: bool, n: usize) {
     s.role(H_C16_DIR, di as u32);
     let d = directive_at(di);
-    let assign = s.bool();
-    let n = s.below(3) as usize;
     let (o0, k0, v0) = draw_op(s);
     let (o1, k1, v1) = draw_op(s);
     let common = CommonContext::new();
